@@ -220,13 +220,35 @@ func (u *URIParts) String() string {
 
 var uriParamNames = []string{"transport", "user", "method", "ttl", "maddr", "lr"}
 
+// KnownParamName: a known URI parameter name in any letter case, or - one time in five - a NEAR miss of one: the known
+// name extended by a suffix, a proper prefix of it, or the name with one letter changed (all of them ordinary "other"
+// parameters for a correct classification)
+func (r *Rng) KnownParamName() string {
+	nm := uriParamNames[r.N(len(uriParamNames))]
+	if r.P(20) {
+		switch r.N(3) {
+		case 0:
+			nm = nm + r.Pick("-x", "s", "2", "-context", "_", ".")
+		case 1:
+			if len(nm) > 1 {
+				nm = nm[:1+r.N(len(nm)-1)]
+			}
+		default:
+			b := []byte(nm)
+			b[r.N(len(b))] = "xz1-"[r.N(4)]
+			nm = string(b)
+		}
+	}
+	return r.ReCase(nm)
+}
+
 func (r *Rng) ParamList(sep string, maxItems int) string {
 	n := r.N(maxItems + 1)
 	var items []string
 	for i := 0; i < n; i++ {
 		var name string
 		if r.P(40) {
-			name = r.ReCase(uriParamNames[r.N(len(uriParamNames))])
+			name = r.KnownParamName()
 		} else {
 			name = r.Alnum(1, 6)
 		}
